@@ -23,6 +23,7 @@ class _FrontHalf(compiler.CompilerBase):
 class TypedIR:
     def __init__(self, name, disp, func_ir, typemap, calltypes, sig, return_type):
         self.name = name
+        self.qualname = "%s.%s" % (disp.py_func.__module__.split(".")[-1], disp.py_func.__name__)
         self.disp = disp
         self.func_ir = func_ir
         self.blocks = func_ir.blocks
